@@ -24,6 +24,9 @@ from .seq import SStr, SBytes, _slice_bounds, _dec, _conj, _eq, to_els, mkstr, m
 PKG = 'ssh_audit'
 
 
+MODELLED = ('re', 'struct', 'io', 'binascii')
+
+
 class _Tx(ast.NodeTransformer):
     def __init__(self):
         self.cls = []
@@ -32,6 +35,15 @@ class _Tx(ast.NodeTransformer):
         if self.cls and attr.startswith('__') and not attr.endswith('__'):
             return '_' + self.cls[-1].lstrip('_') + attr
         return attr
+
+    def visit_Import(self, node):
+        keep = [a for a in node.names if not (a.name in MODELLED and a.asname in (None, a.name))]
+        if len(keep) == len(node.names):
+            return node
+        if not keep:
+            return ast.copy_location(ast.Pass(), node)
+        node.names = keep
+        return node
 
     def visit_ClassDef(self, node):
         self.cls.append(node.name)
@@ -258,16 +270,11 @@ class _Finder(importlib.abc.MetaPathFinder, importlib.abc.Loader):
         g['__file__'] = p
         g.update(RUNTIME)
         g.update(shims.BUILTIN_SHIMS)
+        g['struct'] = shims.StructShim
+        g['io'] = shims.IOShim
+        g['binascii'] = shims.BinasciiShim
+        g['re'] = rex.ReShim
         exec(code, g)
-        # rebind modelled libraries
-        if isinstance(g.get('struct'), types.ModuleType):
-            g['struct'] = shims.StructShim
-        if isinstance(g.get('io'), types.ModuleType):
-            g['io'] = shims.IOShim
-        if isinstance(g.get('binascii'), types.ModuleType):
-            g['binascii'] = shims.BinasciiShim
-        if isinstance(g.get('re'), types.ModuleType):
-            g['re'] = rex.ReShim
         self.loaded.append(module.__name__)
 
 
